@@ -123,6 +123,9 @@ def detector_table(tier):
         "SeededBinarySegmentation": (lambda: SeededBinarySegmentation(min_segment_length=2, max_interval_length=12), True),
         "CAPA": (lambda: CAPA(min_segment_length=2), True),
         "MVCAPA": (lambda: MVCAPA(min_segment_length=2), True),
+        "CAPA(L2Cost(param=0.5))": (lambda: CAPA(collective_saving=__import__("skchange.costs", fromlist=["L2Cost"]).L2Cost(param=0.5),
+                                                  point_saving=__import__("skchange.costs", fromlist=["L2Cost"]).L2Cost(param=0.5),
+                                                  min_segment_length=2), True),
         "CircularBinarySegmentation": (lambda: CircularBinarySegmentation(min_segment_length=2, max_interval_length=8), True),
         "StatThresholdAnomaliser(PELT)": (lambda: StatThresholdAnomaliser(PELT(), stat_lower=-2.0, stat_upper=2.0), False),
     }
@@ -150,6 +153,11 @@ def scorer_table():
     return {
         "L2Cost": (lambda: L2Cost(), 2),
         "L2Cost(param=1.0)": (lambda: L2Cost(param=1.0), 2),
+        # non-integer fixed parameters: integer-dtype data must not change how the parameter is interpreted
+        "L2Cost(param=2.5)": (lambda: L2Cost(param=2.5), 2),
+        "GaussianVarCost(param=(0.5,2.5))": (lambda: GaussianVarCost(param=(0.5, 2.5)), 2),
+        "GaussianCovCost(param=(0.5,1.5))": (lambda: GaussianCovCost(param=(0.5, 1.5)), 2),
+        "Saving(L2Cost(param=-0.5))": (lambda: Saving(L2Cost(param=-0.5)), 2),
         "GaussianVarCost": (lambda: GaussianVarCost(), 2),
         "GaussianCovCost": (lambda: GaussianCovCost(), 2),
         "CUSUM": (lambda: CUSUM(), 3),
